@@ -9,7 +9,8 @@ from common import b64, harness, seed
 
 def valid_docs(chk, tier, plans_quick, plans_thorough, features=c04.ALL_FEATURES):
     sd = seed()
-    plans = plans_thorough if tier == "thorough" else plans_quick
+    # the share of Valid documents fell as the generator learnt more features: twice the walks in the quick tier
+    plans = plans_thorough if tier == "thorough" else [(2 * n, mb) for n, mb in plans_quick]
     docs = []
     for i, (n, mb) in enumerate(plans):
         got = c04.gen_docs(chk, n, mb, sd * 100 + i + 7, features=features, workers=8 if tier == "thorough" else 4)
